@@ -38,7 +38,7 @@ let field key toks =
 
 let fieldi key toks = match field key toks with Some v -> (try int_of_string v with _ -> -1) | None -> -1
 
-let is_pattern = function "pubsub" | "event" | "reqres" | "blackboard" | "reqres2" -> true | _ -> false
+let is_pattern = function "pubsub" | "event" | "reqres" | "blackboard" | "reqres2" | "rrovf" -> true | _ -> false
 let pattern_of = function
   | "pubsub" -> Some M.PubSub | "event" -> Some M.Event | "reqres" -> Some M.ReqRes | "blackboard" -> Some M.Blackboard
   | _ -> None
@@ -146,6 +146,9 @@ let () =
          Hashtbl.replace distinct (pname ^ soi (fieldi "nodes" toks) ^ order) ();
          (match is_pattern pname with
           | false -> mismatch "model" short "unknown-pattern" "-" pname
+          | true when pname = "rrovf" ->
+            (* behavioural family without a model instance: only the property-side checks apply *)
+            cur := Some { hdr = short; pname; two; fs; g = []; h = []; fuel = M.O; names; st = None; dropped = []; ended = false }
           | true ->
             let (g, h, fuel, wf) = instance pname two in
             if not wf then mismatch "model" short "harness-graph-is-not-a-well-formed-instance-of-the-generated-table" "wf" "not-wf";
